@@ -36,6 +36,8 @@ def shapeCenter (vs : List V2) : V2 :=
   let n := Float.ofNat vs.length
   (pySum (vs.map (·.1)) / n, pySum (vs.map (·.2)) / n)
 
+def VERTEX_EPSILON : Float := Float.ofBits Tables.VERTEX_EPSILON_BITS
+
 /-- `contains_point(point)`; a wrong winding raises ValueError -/
 def containsPoint (vs : List V2) (p : V2) : PyM Float :=
   if !(shapeArea vs >= 0) then .error .value
@@ -49,7 +51,12 @@ def containsPoint (vs : List V2) (p : V2) : PyM Float :=
       let px := p.1 - v1.1
       let py := p.2 - v1.2
       let cp := dx * py - dy * px
-      if cp < 0 then pyMin dMax (cp / Float.sqrt (px * px + py * py)) else dMax) 1.0)
+      if cp < 0 then
+        let pLength := Float.sqrt (px * px + py * py)
+        -- closer to the vertex than coordinate rounding: measured against the edge instead (repair of the exact-corner defect)
+        let pLength := if pLength < VERTEX_EPSILON then Float.sqrt (dx * dx + dy * dy) else pLength
+        pyMin dMax (cp / pLength)
+      else dMax) 1.0)
 
 /-- `split_edges(segments)` -/
 def splitEdges (vs : List V2) (segments : Int) : List V2 :=
